@@ -55,6 +55,12 @@ func init() {
 		"fmt.Sprint":                               pureFreshString,
 		"fmt.Sprintln":                             pureFreshString,
 		"fmt.Println":                              pureHavoc,
+		// file-system effects are outside the memory model: the calls return arbitrary results and touch no Go memory;
+		// what is written where is specified at the call sites (precall clauses)
+		"os.MkdirAll":                              pureHavoc,
+		"os.WriteFile":                             pureHavoc,
+		"(*os.File).WriteString":                   pureHavoc,
+		"(*os.File).Sync":                          pureHavoc,
 		"fmt.Printf":                               pureHavoc,
 		"fmt.Errorf":                               fmtErrorf,
 		"errors.New":                               errorsNew,
@@ -71,6 +77,7 @@ func init() {
 		"strings.ToUpper":                          pureFreshString,
 		"strings.ToLower":                          pureFreshString,
 		"strings.Contains":                         pureHavoc,
+		"strings.ContainsAny":                      stringsContainsAny,
 		"strings.HasPrefix":                        pureHavoc,
 		"strings.HasSuffix":                        pureHavoc,
 		"strings.Index":                            pureHavoc,
@@ -311,6 +318,36 @@ func bytesContainsRune(f *Frame, st *state, callee *ssa.Function, args []Val, in
 	bv := bvLitU(uint64(c), 8)
 	u.ctx.assert("lib:ContainsRune", implies(res, and(le("0", w), lt(w, b.S[1]), eq(sel(arr, add(b.S[0], w)), bv))))
 	u.ctx.assert("lib:ContainsRune", implies(not(res), quantRange(u, "0", b.S[1], func(i string) string { return not(eq(sel(arr, add(b.S[0], i)), bv)) })))
+	return &Val{T: resT, S: []string{res}}
+}
+
+// stringsContainsAny is precise when the character set is a constant ASCII string: the result is true exactly when some
+// byte of s equals one of the characters (for ASCII characters byte and rune comparison coincide, because the bytes of
+// multi-byte UTF-8 sequences are all >= 0x80).
+func stringsContainsAny(f *Frame, st *state, callee *ssa.Function, args []Val, ins ssa.Instruction, resT types.Type) *Val {
+	u := f.u
+	s, chars := args[0], args[1]
+	if chars.ConstS == nil || len(*chars.ConstS) == 0 || len(*chars.ConstS) > 16 {
+		return pureHavoc(f, st, callee, args, ins, resT)
+	}
+	for i := 0; i < len(*chars.ConstS); i++ {
+		if (*chars.ConstS)[i] >= 0x80 {
+			return pureHavoc(f, st, callee, args, ins, resT)
+		}
+	}
+	arr := u.arr(st.mem, strSite, SBV(8))
+	isOne := func(b string) string {
+		var alts []string
+		for i := 0; i < len(*chars.ConstS); i++ {
+			alts = append(alts, eq(b, bvLitU(uint64((*chars.ConstS)[i]), 8)))
+		}
+		return or(alts...)
+	}
+	res := u.ctx.freshConst("containsany", SBool)
+	w := u.ctx.freshConst("caw", SInt)
+	u.ctx.assert("lib:ContainsAny", implies(res, and(le("0", w), lt(w, s.S[1]), isOne(sel(arr, add(s.S[0], w))))))
+	// quantified over addresses so that any read of the string triggers the instantiation
+	u.ctx.assert("lib:ContainsAny", implies(not(res), fmt.Sprintf("(forall ((a! Int)) (! (=> (and (<= %s a!) (< a! (+ %s %s))) (not %s)) :pattern ((select %s a!))))", s.S[0], s.S[0], s.S[1], isOne(sel(arr, "a!")), arr)))
 	return &Val{T: resT, S: []string{res}}
 }
 
